@@ -1043,6 +1043,29 @@ static Token *include_file(Token *tok, char *path, Token *filename_tok, int next
 }
 
 // Read #line arguments
+// Returns the physical line on which the directive that contains TOK
+// ends. A comment behind the last token may extend the directive over
+// several lines, so no token of the directive knows where that is.
+static int directive_end_line(Token *tok) {
+  while (tok->kind != TK_EOF && tok->next->kind != TK_EOF && !tok->next->at_bol)
+    tok = tok->next;
+
+  int line = tok->line_no;
+  char *p = tok->loc + tok->len;
+  while (*p && *p != '\n' && strncmp(p, "//", 2)) {
+    if (strncmp(p, "/*", 2)) {
+      p++;
+      continue;
+    }
+    for (p += 2; *p && strncmp(p, "*/", 2); p++)
+      if (*p == '\n')
+        line++;
+    if (*p)
+      p += 2;
+  }
+  return line;
+}
+
 static void read_line_marker(Token **rest, Token *tok) {
   Token *start = tok;
   // Expand macros in the rest of the line. This must not be done by
@@ -1058,7 +1081,7 @@ static void read_line_marker(Token **rest, Token *tok) {
     if (tok->loc[i] < '0' || '9' < tok->loc[i])
       error_tok(tok, "invalid line marker");
   long line = strtol(tok->loc, NULL, 10);
-  start->file->line_delta = line - start->line_no;
+  start->file->line_delta = line - directive_end_line(start);
 
   tok = tok->next;
   if (tok->kind == TK_EOF)
